@@ -217,6 +217,20 @@ class RopeProject:
         finally:
             shutil.rmtree(self.dir, ignore_errors=True)
 
+    def commit(self, path, offset, new_name):
+        """performs a rename and KEEPS it (a step of a session); returns the new tree or None when rope refuses"""
+        from rope.refactor import rename as rmod
+        try:
+            res = self.project.get_resource(path)
+            changes = rmod.Rename(self.project, res, offset).get_changes(new_name)
+            self.project.do(changes)
+        except Exception:  # noqa: BLE001
+            return None
+        self.files = read_tree(self.dir)
+        self.performed = {}
+        self.steps = getattr(self, "steps", []) + [(path, offset, new_name)]
+        return dict(self.files)
+
     def rename(self, path, offset, new_name, perform=True):
         """dict: kind = refused | raised | changes ; for changes: local, contents {path: new text}, moves
         [(old path, new path)], after {path: text} = the tree on disk after project.do, restored = undo gave the
@@ -258,7 +272,10 @@ class RopeProject:
                 o["other"].append(type(c).__name__)
         key = (tuple(sorted(o["contents"].items())), tuple(o["moves"]), tuple(o["other"]))
         done = self.performed.get(key)
-        if perform and done is not None:
+        if perform and not o["contents"] and not o["moves"] and not o["other"]:
+            # an empty change set: nothing to perform (project.do would not even record it)
+            o["after"], o["restored"] = dict(self.files), True
+        elif perform and done is not None:
             # the same change set was performed before (another token of the same binding): same effect
             o["after"], o["restored"] = done
             o["performed"] = "as-before"
